@@ -15,6 +15,7 @@ func init() {
 		LLSpec{File: "c03.c", Func: "harness_any_adler32", Params: map[string]int{"N": 6}, ParamsT: map[string]int{"N": 12}, Reach: []string{"any/done"}},
 		LLSpec{File: "c03.c", Func: "harness_any_crc32", Params: map[string]int{"N": 3}, ParamsT: map[string]int{"N": 6}, Reach: []string{"any/done"}},
 	)
+	specs = append(specs, LLSpec{File: "c03.c", Func: "harness_match7", Reach: []string{"match7/done"}})
 	specs = append(specs, LLSpec{File: "c03.c", Func: "harness_any_scan", Params: map[string]int{"N": 12}, Reach: []string{"any/done"}})
 	for _, hname := range []string{"xxhash32", "xxhash64"} {
 		specs = append(specs, LLSpec{File: "c03.c", Func: "harness_any_" + hname, Params: map[string]int{"N": 20}, ParamsT: map[string]int{"N": 24}, Reach: []string{"any/done"}})
